@@ -121,3 +121,45 @@ func hEsc(s string) string {
 	}
 	return out
 }
+
+// VfC02_Names: the fixpoint over names of every lexical class (digits only,
+// word characters, '-', anything else including quotes and backslashes) at the
+// sites where the printer chooses between spellings: a global or function in a
+// comdat of its own name (printed as bare `comdat`), global references, type
+// names, labels and named metadata.  The input spells every name byte as \XX.
+//
+//vf:unwind 400
+//vf:shards 16
+//vf:steps 80000000
+func VfC02_Names() {
+	k := vfChoice("site.class", 24)
+	site := k / 4
+	n := vfLen("n", 1, 2)
+	a := hClassedWith("a", n, k%4)
+	q := "\"" + hEsc(a) + "\""
+	var src string
+	switch site {
+	case 0:
+		src = "$" + q + " = comdat any\n@" + q + " = global i32 0, comdat($" + q + ")\n@other = global i32 1, comdat($" + q + ")\n"
+	case 1:
+		src = "$" + q + " = comdat any\ndefine void @" + q + "() comdat($" + q + ") {\n\tret void\n}\n"
+	case 2:
+		src = "@" + q + " = global i32 0\n@ali = alias i32, i32* @" + q + "\n@ptr = global i32* @" + q + "\n"
+	case 3:
+		allDigit := true
+		for i := 0; i < len(a); i++ {
+			allDigit = vfAnd(allDigit, vfAnd(a[i] >= '0', a[i] <= '9'))
+		}
+		vfKnown("C11.numeric-type-names", allDigit)
+		src = "%" + q + " = type { i32 }\n@gvar = global %" + q + " zeroinitializer\n"
+	case 4:
+		src = "define void @fun() {\n" + q + ":\n\tbr label %" + q + "\n}\n"
+	default:
+		src = "!" + hEscMD(a) + " = !{}\n"
+	}
+	hC02Check(src)
+}
+
+// hEscMD spells a metadata name with every byte escaped (\XX), the form the
+// lexer accepts in bare metadata names.
+func hEscMD(s string) string { return hEsc(s) }
